@@ -588,7 +588,7 @@ def leg_pause_interfere(flavour, tier, jobs=8):
 # ---------------------------------------------------------------------------------------------
 
 FAULT_CALLS = ["mkdir", "openat", "write", "fallocate", "ftruncate", "renameat,renameat2,rename", "unlink,unlinkat", "read", "linkat",
-               "copy_file_range", "newfstatat,statx", "getdents64"]
+               "copy_file_range", "newfstatat,statx", "getdents64", "fsync,fdatasync"]
 ERRNOS = ["EIO", "ENOSPC", "EACCES", "EMFILE"]
 
 
@@ -633,10 +633,14 @@ def leg_fault_injection(cases, flavour, tier, jobs=8):
         threads = pids      # every thread: with an attached tracer the first thread seen need not be the main one
         for cls in FAULT_CALLS:
             names = cls.split(",")
-            mx = max([sum(base.counts_by_pid[t].get(nm, 0) for nm in names) for t in threads] or [0])
+            # strace keeps the `when=N` counter per system call NAME (and thread): N ranges up to the largest count of
+            # any one name of the class
+            mx = max([base.counts_by_pid[t].get(nm, 0) for t in threads for nm in names] or [0])
             occ = list(range(1, mx + 1))
-            if tier == "quick" and len(occ) > 3:
+            if tier == "quick" and len(occ) > 3 and case["kind"] != "list":
                 occ = [occ[0], occ[len(occ) // 2], occ[-1]]
+            elif tier == "quick" and len(occ) > 12:
+                occ = occ[:12]              # a listing: every call of the walk over the first buckets
             for n in occ:
                 for en in (ERRNOS if tier == "thorough" else ERRNOS[:2]):
                     if en == "EMFILE" and names[0] not in ("openat",):
@@ -822,7 +826,7 @@ def leg_writer_faults(flavour, tier, jobs=8):
         threads = pids
         for cls in WRITER_FAULT_CALLS:
             names = cls.split(",")
-            mx = max([sum(base.counts_by_pid[t].get(nm, 0) for nm in names) for t in threads] or [0])
+            mx = max([base.counts_by_pid[t].get(nm, 0) for t in threads for nm in names] or [0])
             occ = list(range(1, mx + 1))
             if tier == "quick" and len(occ) > 4:
                 occ = [occ[0], occ[1], occ[len(occ) // 2], occ[-1]]
@@ -951,6 +955,20 @@ def fault_cases_list(r):
     ws = [w_oneshot("s", "sha256", b"la", b"value a"), w_oneshot("a", "sha512", b"lb", b"value b"), w_oneshot("s", "sha1", b"lc", b"value c")]
     return [{"setup": ws, "victim": "list c0", "key": b"la", "data": b"value a", "algo": "sha256", "kind": "list",
              "others": {b"lb": b"value b", b"lc": b"value c"}}]
+
+
+def fault_cases_inserts():
+    """C06 ('no lookup ever returns an entry that was not written by a SUCCESSFUL insert'): keyed one-shot writes and a
+    rewrite of an existing key; whatever call fails, a write that answers an error has not mapped the key to the new data."""
+    d = b"inserted under a fault " * 6
+    key = b"ik"
+    base = [w_oneshot("s", "sha256", b"other", b"other value")]
+    others = {b"other": b"other value"}
+    return [
+        {"setup": base, "victim": w_oneshot("s", "sha256", key, d), "key": key, "data": d, "algo": "sha256", "kind": "write", "others": others},
+        {"setup": base + [w_oneshot("s", "sha256", key, b"the old value")], "victim": w_oneshot("a", "sha256", key, d), "key": key, "data": d,
+         "algo": "sha256", "kind": "write", "others": others},
+    ]
 
 
 def fault_cases_writes(r):
